@@ -49,22 +49,36 @@ CFG = {
         "encoding/wkb/*.go and encoding/hex/hex.go of the tree under test on every run; Tie.lean proves every regenerated function equal to the "
         "model's (28 tie lemmas; the chunked readPoints by induction) and the theorems are restated for the regenerated Encode/Decode/Read "
         "(C05_*_src). Trusted in T1: the translator and the meaning lean/GeomV/C05/GenLib.lean gives to io.Reader/io.Writer (remaining bytes / bytes "
-        "written; bytes written before an error are not modelled), encoding/binary, uint32 wrap-around, the three loop forms, map lookup, and "
+        "written; bytes written before an error: see Sink below), encoding/binary, uint32 wrap-around, the three loop forms, map lookup, and "
         "the unrolling of the Read/Write recursion. A function outside the subset makes Gen.lean fail to elaborate and is reported by name",
+        "T1, streaming path (wave 3): the extractor translates every reader function a SECOND time with the io.Reader as any byte source "
+        "(Gen.lean, names ending in S; vocabulary lean/GeomV/C05/GenLibS.lean: binary.Read = ONE io.ReadFull of dataSize bytes — 1, 4, 16, 16*len — "
+        "followed by the in-memory decoding of the buffer); TieGenS.lean proves function by function (11 relation lemmas GenS.*_rel, the chunked "
+        "loop included) that behind ANY scripted reader they return what the regenerated slice functions return on the bytes delivered before the "
+        "reader's first error, leave exactly the bytes those leave, reject alike, and report the reader's own error where the slice function runs "
+        "out of input (C05_stream_gen, C05_stream_gen_model, C05_stream_read_gen, C05_stream_truncated_gen). Trusted there: the same translator, "
+        "GenLibS.lean, and the model of io.ReadFull over scripts (Stream.fill, hand-written from io.ReadAtLeast, tied by the rdscript lines)",
         "T2: model lean/GeomV/C05/Model.lean is tied to /repo/encoding/{wkb,hex} by the correspondence run (byte-exact, both directions) on every check",
         "Go encoding/hex behaves as documented (lower-case hex). encoding/binary: the primitives encoding/wkb uses (order.Uint32/Uint64/PutUint32/PutUint64, "
         "binary.Read/Write of uint32 and geom.Point) are transcribed from the Go 1.23 source into lean/GeomV/C05/BinStd.lean (shifts/ors, byte(v>>k), one io.ReadFull + "
         "struct walk) and PROVED equal to GenLib's meaning (C05_bin_*); the transcription is tied to the real library by the bin lines of every run; still trusted: "
-        "binary.Read/Write of a []geom.Point = its elements one after the other, math.Float64bits/frombits are the identity on bit patterns",
+        "math.Float64bits/frombits are the identity on bit patterns (they are unsafe pointer casts; a coordinate IS its 64-bit pattern in the model). "
+        "The slice walk of binary.Read/Write on a []geom.Point (one io.ReadFull of 16*len bytes, element by element through the struct walk; one buffer, one "
+        "w.Write) is transcribed too and proved equal to GenLib's (C05_bin_readPoints, C05_bin_writePoints)",
         "io.Reader: no longer 'the remaining bytes' only — lean/GeomV/C05/Stream.lean models a reader as ANY finite script of Read calls (short/empty reads, data "
         "together with an error, errors of its own) and io.ReadFull over it (hand-written from io.ReadAtLeast; a Read error delivered with the last needed byte "
         "stays pending); C05_readfull/C05_stream_model prove that wkb.Read behind such a reader = Model.read (= Gen.read, C05_stream_model_src) on the bytes delivered "
         "before the first error. Stream.readS (wkb.Read generic in its byte source) is hand-written, proved equal to Model.read on byte lists, and tied by the "
-        "rdscript lines (exact results, error classes and bytes consumed)",
+        "rdscript lines (exact results, error classes and bytes consumed); since wave 3 the same theorems hold for the REGENERATED streaming functions "
+        "(C05_stream_gen*), so the hand-written readS is no longer needed for the claim about wkb.Read, only for judging the rdscript lines",
+        "io.Writer: lean/GeomV/C05/Sink.lean models wkb.Write call by call (one w.Write per binary.Write, in the order of the Go source, stopping at the "
+        "first error) over any writer state machine; hand-written, proved equal to Model.write on writers that accept everything (C05_sink_ok) and "
+        "tied by the wrfail lines (exact result and bytes for a writer failing after k bytes)",
         "harness/cmd/c05 + lean driver + lib/vcheck.py transport inputs faithfully",
     ],
     "assumptions": ["member counts < 2^32 (the WKB count field) — proved to be exactly the lossless domain (C05_roundtrip_iff; behaviour beyond it: C05_count_wraps); "
-                    "nil slices and empty slices are not distinguished",
+                    "nil slices and empty slices are not distinguished by the property nor by the model; observed on every decin line: the decoder returns every slice "
+                    "non-nil, also for a count of 0 (class decin-nil-slice counts the lines where it does not: 0 on the unchanged tree; not an alarm)",
                     "T1 sees the text of the functions, not the Go memory model: aliasing of results or inputs, state kept between calls and "
                     "package-level variables are outside the regenerated definitions (any use of a package-level variable other than the dispatch "
                     "table leaves the subset and is reported) and are probed by T2 (late-read batches, shared-backing inputs, repeated calls)"],
@@ -83,6 +97,9 @@ CFG = {
             "foreign byte-order values (encbo); Decode on a window with sentinels, input compared before/after, decoded twice (decin; incl. lists truncated "
             "inside a later chunk and trailing bytes); batches of decodes read late (decbatch); 60 (thorough 400) concurrent-caller lines (cc: 8 callers on "
             "private copies + 6 hammering goroutines, both byte orders, every observation point; class conc-*); encoding/binary primitives against their transcription (bin). "
+            "Wave 3: every count field (points, rings, Multi* members, collection members) at 65536/65537 in the quick tier; wrfail lines with an unsupported value at "
+            "top level / after supported members / nested (bytes handed to the writer before the error must be a prefix of the model's); all-empty values of every "
+            "type decoded with a nil-vs-empty report. "
             "distinct = distinct input line; non-trivial = verdict class not 'skipped'",
     "timeout": {"quick": 600, "thorough": 3000},
 }
